@@ -191,6 +191,16 @@ def _run_case(ctx, case, rng):
         if case.get("onto_empty"):
             from curtsies.formatstring import fmtstr as _fmtstr
             f = _fmtstr("") + f          # as sum(parts, fmtstr('')) builds it: an empty, attribute-less first run
+        if case.get("stray_empty_run") is not None and any(t for t, _ in spec):
+            # a zero-length run formatted differently holds no character: the string is still
+            # uniformly formatted and that run's formatting is nobody's
+            from curtsies.formatstring import fmtstr as _fmtstr
+            k, atts = case["stray_empty_run"]
+            parts = [obs.build([r]) for r in spec]
+            parts.insert(k % (len(parts) + 1), obs.build([["", atts]]))
+            f = parts[0]
+            for p_ in parts[1:]:
+                f = f + p_
         F = obs.spec_cells(spec)
         new = case["new"]
         fmt = obs.spec_cells([["x", spec[0][1]]])[0][1:]     # all runs share these attributes
@@ -201,7 +211,8 @@ def _run_case(ctx, case, rng):
             ctx.judge(False, case, mech="C14:copy_with_new_str", expected=obs.show(want), got=repr(ex))
             return
         problems, got = obs.result_problems(r, want)
-        ctx.judge(not problems, case, mech="C14:copy_with_new_str", expected=obs.show(want),
+        ctx.judge(not problems, case, mech="C14:copy_with_new_str-takes-formatting-of-empty-run"
+                  if case.get("stray_empty_run") is not None else "C14:copy_with_new_str", expected=obs.show(want),
                   got=obs.show(got) if got is not None else None, detail=problems)
         if obs.cells(f) != F:
             ctx.judge(False, case, mech="C14:operand-changed")
@@ -314,7 +325,8 @@ def run(ctx):
         runs = [["".join(rng.choice("abc") for _ in range(rng.randint(0, 3))), dict(a)]
                 for _ in range(rng.randint(1, 3))]
         run_case(ctx, {"kind": "newstr", "fmt": runs, "new": rng.choice(["", "x", "hello", "一\n"]),
-                       "onto_empty": rng.random() < .3})
+                       "onto_empty": rng.random() < .3,
+                       "stray_empty_run": [rng.randrange(4), rng.choice(obs.PALETTE[1:])] if rng.random() < .25 else None})
         spec = obs.rand_spec(rng, 4, 3, "abc")
         if spec:
             run_case(ctx, {"kind": "shared", "fmt": spec})
